@@ -44,6 +44,11 @@ def gen(rng):
     lo = rng.choice([0x10, 0x401000, 0xfff, 0x1000, 0x7ff0, 0x100000000, 0, 0, 1])      # 0: ranges that start (and may end) at address 0
     hi = lo if rng.random() < 0.25 else lo + rng.choice([1, 0xf, 0x100, 0xfff1, 0x10000000])
     edge = [lo - 1, lo, hi, hi + 1, (lo + hi) // 2, lo * 16, max(0, lo // 16), hi * 16 + 1, 0]
+    if rng.random() < 0.08:
+        # "everything from here up": an upper bound of 2**64 and beyond (17 hexadecimal digits) with targets in the higher half
+        lo = rng.choice([0x7ff0, 0xffffffff80000000, 0x401000, 0])
+        hi = rng.choice([2 ** 64, 2 ** 64 + 0x100, 2 ** 68, 2 ** 64 - 1])
+        edge = [lo - 1, lo, lo + 1, 0xffffffff81000000, 2 ** 64 - 1, 0x2000000000000000, 0xffffffffffffff00, 0, lo // 2]
     insts = []
     addr = rng.choice([0x400ff0, 0x10, lo])
     for _ in range(rng.choice([4, 8, 16, 30])):
